@@ -13,7 +13,7 @@ trap 'git -C "$REPO" checkout -- . ' EXIT
 TMPB=$(mktemp)
 go build ./... >"$TMPB" 2>&1 || { echo "RESULT $PROP $(basename $(dirname $P)): DOES-NOT-BUILD"; tail -3 "$TMPB"; rm -f "$TMPB"; exit 0; }
 rm -f "$TMPB"
-T=$(go test -vet=off -count=1 ./... 2>&1 | grep -c "^FAIL")
+if [ -n "${TRY_SKIP_SUITE:-}" ]; then T=skipped; else T=$(go test -vet=off -count=1 ./... 2>&1 | grep -c "^FAIL"); fi
 OUT=$(VERIF_REPO="$REPO" VERIF_EVIDENCE_DIR=/tmp/mutant-evidence "$VERIF/bin/check" $PROP "$@" 2>&1)
 RC=$?
 V=$(echo "$OUT" | grep -A1 "^VIOLATION" | grep -v "^VIOLATION\|^--" | head -4 | tr '\n' ';')
